@@ -89,8 +89,14 @@ VARIABLES
     \* @type: Int;
     cnt,
     \* @type: $act;
-    act
-vars == <<s, idSet, cnt, act>>
+    act,
+    \* observation for the refinement law only: did the last step conform to the contract's expectation for ITS operation?
+    \* (MC_ScenarioStore checks PropRefines == [][Conforms(Exp(s, act'))]_vars, where Exp dispatches on act'.op to the
+    \* Exp<Op> operators; here every action names its own Exp<Op> so that the encoding builds one expectation per
+    \* transition instead of all of them)
+    \* @type: Bool;
+    refOk
+vars == <<s, idSet, cnt, act, refOk>>
 
 NetNames == {"NA", "NB", "NC"}
 ObjNames == Names \ NetNames
@@ -219,7 +225,11 @@ FirstCntNet(N) == IF cnt = -1 THEN Tok[Tok[N].ord[1]].id ELSE cnt \* FirstCnt(Fl
 \* @type: (Str, Seq(Str), Int, Str) => $act;
 Act(op, toks, ref, res) == [op |-> op, toks |-> toks, ref |-> ref, res |-> res, gid |-> 0]
 
-Init == s = Empty /\ idSet = {} /\ cnt = -1 /\ act = Act("init", <<>>, 0, "ok")
+\* @type: $out => Bool;
+Conforms(e) == /\ e.res \in {act'.res, "any"}
+               /\ e.any \/ Shape(s') \in {Shape(p) : p \in e.posts}
+
+Init == s = Empty /\ idSet = {} /\ cnt = -1 /\ act = Act("init", <<>>, 0, "ok") /\ refOk = TRUE
 
 AddObj(n) ==
     LET m == Mark(IdSeq(n), idSet) IN
@@ -228,6 +238,7 @@ AddObj(n) ==
        THEN /\ s' = AddObjState(s, n) /\ idSet' = m[2] /\ act' = Act("add", <<n>>, 0, "ok")
        ELSE /\ s' = s /\ act' = Act("add", <<n>>, 0, "ValueError")
             /\ idSet' = IF DEV_PartialIntersection THEN m[2] ELSE idSet
+    /\ refOk' = Conforms(ExpAddObj(s, n))
 
 AddNet(N) ==
     LET m == MarkNet(N, idSet) IN
@@ -238,11 +249,13 @@ AddNet(N) ==
             /\ idSet' = m[2] /\ act' = Act("add", <<N>>, 0, "ok")
        ELSE /\ s' = s /\ act' = Act("add", <<N>>, 0, "ValueError")
             /\ idSet' = IF DEV_PartialNetwork THEN m[2] ELSE idSet
+    /\ refOk' = Conforms(ExpAddNet(s, N))
 
 AddList(a, b) ==
     LET r == AddSeq(s, <<a, b>>) IN
     /\ s' = r[1] /\ idSet' = idSet \cup Used(r[1].C) /\ cnt' = FirstCntObj(a)
     /\ act' = Act("add_list", <<a, b>>, 0, IF r[2] THEN "ok" ELSE "ValueError")
+    /\ refOk' = Conforms(ExpAddList(s, <<a, b>>))
 
 Release(ns, list) ==
     UNION {IF KIND[n] = "inter" /\ list /\ DEV_ListRemoveInterKeepsIncoming THEN {Tok[n].id} ELSE IdsObj(n) : n \in ns}
@@ -251,15 +264,18 @@ RemoveSimple(op, kinds, ns, q, list) ==
     /\ ns \subseteq s.C /\ \A n \in ns : KIND[n] \in kinds
     /\ s' = RemoveState(s, ns) /\ idSet' = idSet \ Release(ns, list) /\ UNCHANGED cnt
     /\ act' = Act(op, q, IF list THEN 1 ELSE 0, "ok")
+    /\ refOk' = Conforms(ExpRemove(s, ns))
 
 RemoveLanelet(Ls, q, ref) ==
     LET h == IF ref THEN Hanging(s, Ls, "sign", s.sg) \cup Hanging(s, Ls, "light", s.lt) ELSE {}
     IN /\ Ls \subseteq s.C /\ \A n \in Ls : KIND[n] = "lanelet"
        /\ s' = RemoveState(s, Ls \cup h) /\ idSet' = idSet \ Release(Ls \cup h, TRUE) /\ UNCHANGED cnt
        /\ act' = Act("remove_lanelet", q, IF ref THEN 1 ELSE 0, "ok")
+       /\ refOk' = Conforms(ExpRemoveLanelet(s, Ls, ref))
 
 Erase == /\ s' = RemoveState(s, NetPart(s.C)) /\ idSet' = idSet \ Release(NetPart(s.C), FALSE) /\ UNCHANGED cnt
          /\ act' = Act("erase", <<>>, 0, "ok")
+         /\ refOk' = Conforms(ExpErase(s))
 
 Replace(N) ==
     LET e  == RemoveState(s, NetPart(s.C))
@@ -268,16 +284,19 @@ Replace(N) ==
     IN /\ UNCHANGED cnt
        /\ IF m[1] THEN s' = NetState(e, N) /\ idSet' = m[2] /\ act' = Act("replace", <<N>>, 0, "ok")
           ELSE s' = e /\ idSet' = (IF DEV_PartialNetwork THEN m[2] ELSE S1) /\ act' = Act("replace", <<N>>, 0, "ValueError")
+       /\ refOk' = Conforms(ExpReplace(s, N))
 
 \* generate_object_id: NO MaxGen guard
 Gen1 == LET c0 == IF cnt = -1 THEN 0 ELSE cnt
             c1 == IF idSet = {} THEN c0 ELSE IF Max(idSet) > c0 THEN Max(idSet) ELSE c0
         IN /\ cnt' = c1 + 1 /\ s' = [s EXCEPT !.gen = @ \cup {c1 + 1}] /\ UNCHANGED idSet
            /\ act' = [Act("gen", <<>>, 0, "ok") EXCEPT !.gid = c1 + 1]
+           /\ refOk' = Conforms(Outcome("ok", {s}, FALSE))
 
 RemoveAbsent(n, list) ==
     /\ n \notin s.C /\ KIND[n] \in ObsKinds
     /\ UNCHANGED <<s, idSet, cnt>> /\ act' = Act("remove_absent", <<n>>, IF list THEN 1 ELSE 0, "ok")
+    /\ refOk' = Conforms(Outcome("ok", {s}, FALSE))
 
 OfKind(ks) == {n \in s.C : KIND[n] \in ks}
 
@@ -311,9 +330,7 @@ ActGenFresh     == act'.op = "gen" => GenOk(s, act'.gid)
 ActRejectAtomic == (act'.op = "add" /\ act'.res = "ValueError") => (s' = s /\ idSet' = idSet)
 PropAct         == ActGenFresh /\ ActRejectAtomic
 \* refinement: every step of the implementation model is a step the contract allows
-ActRefines == LET e == Exp(s, act') IN
-                 /\ e.res \in {act'.res, "any"}
-                 /\ e.any \/ Shape(s') \in {Shape(p) : p \in e.posts}
+InvRefines == refOk          \* read at the state AFTER the one step from IndInit: --inv=InvRefines --length=1
 
 (* ---- the inductive invariant ------------------------------------------------------------------------- *)
 Ops == {"init", "add", "add_list", "remove_obstacle", "remove_sign", "remove_light", "remove_inter",
@@ -344,5 +361,6 @@ IndInit ==
     /\ idSet \in SUBSET ProbeIds
     /\ cnt = Gen(1)
     /\ act = Gen(2)
+    /\ refOk = TRUE
     /\ IndInv
 ===================================================================================
